@@ -14,7 +14,7 @@ from __future__ import annotations
 import ast
 
 from mlmverif import cfg as cfgm
-from mlmverif.core import (AnalysisError, Ctx, FuncInfo, is_self_attr, kwarg,
+from mlmverif.core import (is_increment, increment_target, AnalysisError, Ctx, FuncInfo, is_self_attr, kwarg,
                            parent_map, unparse, walk_no_nested)
 from mlmverif.effects import DIRECT, Effects
 
@@ -240,10 +240,10 @@ def r3(ctx: Ctx):
   if len(rows) != 1:
     raise AnalysisError(f'{rule}: row loop not found')
   rl = rows[0]
-  incs = [s for s in rl.body if isinstance(s, ast.AugAssign) and isinstance(s.op, ast.Add) and unparse(s.value) == '1']
-  all_incs = [s for s in ast.walk(rl) if isinstance(s, ast.AugAssign)]
-  if len(incs) == 1 and len(all_incs) == 1 and isinstance(incs[0].target, ast.Name):
-    ix = incs[0].target.id
+  incs = [s for s in rl.body if is_increment(s)]
+  all_incs = [s for s in ast.walk(rl) if isinstance(s, ast.AugAssign) or is_increment(s)]
+  if len(incs) == 1 and len(all_incs) == 1:
+    ix = increment_target(incs[0])
     rec = [c for c in ast.walk(rl) if isinstance(c, ast.Call) and isinstance(c.func, ast.Attribute)
            and c.func.attr == 'append' and [unparse(a) for a in c.args] == [ix]]
     before = rec and all(c.lineno < incs[0].lineno for c in rec)
